@@ -67,4 +67,8 @@ CHECKS = {
         text='Bounded model checking of exception propagation through the real wrapper and proxy code: 25 exception classes (16 builtin families incl. ExceptionGroup, 7 user classes with required __init__/__new__ arguments, extra attributes, __slots__, custom __str__, properties) x 5 ways of raising (direct, nested, while evaluating a reference, under scopes); the caught object must be catchable by the original class, keep the original traceback frames and read equal on every public non-callable attribute of the original for ALL integer payloads; message = original text + suffix naming configurable and scope (concrete payloads); non-Exception BaseExceptions arrive as the very object.',
         note=X_NOTE + ' One listed known finding (class whose __new__ arguments cannot be recovered from .args is re-raised without the message suffix).',
         technique='CrossHair/z3 symbolic execution of gin_wrapper exception path and utils.augment_exception_message_and_reraise with symbolic payloads'),
+    'C13': dict(
+        text='Bounded model checking of registration on the real code: 13 callable/class shapes x 3 registration APIs x scoped or not; register returns the very object and vars(cls) is untouched, direct calls are never injected while the registry version (by object, by selector, returned wrapper, evaluated reference) receives the bound value for ALL integers, name/doc/module/signature preserved, issubclass/isinstance/exact type/pickle round trip; 7 kinds of rejected registration leave the registry listing unchanged; interactive mode ends with its block even when the body raised.',
+        note=X_NOTE + ' Class creation, pickle and inspect are CPython C code executed natively.',
+        technique='CrossHair/z3 symbolic execution of _make_configurable/_decorate_fn_or_cls/gin_wrapper over shape x API choices with a symbolic bound value'),
 }
